@@ -269,7 +269,8 @@ theorem typeInfo_inv (fx : Bool) : ∀ f : Nat,
           inv0
         refine invAt_bind (k1 := 0) (k2 := 0) (hname st) (fun _ st1 h1 => ?_)
         refine invAt_mono (invAt_bind (k1 := 2) (k2 := 0) (ihT st1 (by omega)) (fun _ st2 h2 => ?_)) (Nat.zero_le _)
-        exact ihL named n st2 (by omega)
+        refine invAt_bind (k1 := 0) (k2 := 0) (ihL named n st2 (by omega)) (fun _ st3 h3 => ?_)
+        exact inv_pure fx _ st3
 
 theorem inv_readTypeInfoTop (fx : Bool) : Inv fx 2 (readTypeInfoTop fx) := by
   intro st
